@@ -15,7 +15,9 @@ open PV.Table PV.Spec.Map
     repeats, and the value returned is the one stored with the key's first insertion. -/
 theorem history_refines (ops : List Op) (h : ∀ op ∈ ops, opKey op ≠ 0) :
     ∃ t, run init ops = some ((PV.Spec.Map.run [] ops).1, t) := by
-  sorry
+  obtain ⟨t, ht, _, _⟩ := PV.Lemmas.Table.run_inv ops init [] PV.Lemmas.Table.init_inv
+    PV.Lemmas.Table.init_abs h
+  exact ⟨t, ht⟩
 
 /-- Growth preserves contents: doubling a reachable table keeps every (key, value) pair and
     adds none. -/
@@ -23,14 +25,26 @@ theorem double_preserves (ops : List Op) (h : ∀ op ∈ ops, opKey op ≠ 0) (a
     (hr : run init ops = some (ans, t)) :
     ∃ t', double t = some t' ∧ t'.buckets = 2 * t.buckets ∧
       ∀ k, k ≠ 0 → find t' k = find t k := by
-  sorry
+  obtain ⟨t0, ht0, hi, _⟩ := PV.Lemmas.Table.run_inv ops init [] PV.Lemmas.Table.init_inv
+    PV.Lemmas.Table.init_abs h
+  rw [hr] at ht0
+  injection ht0 with ht0
+  injection ht0 with _ ht0
+  subst ht0
+  exact PV.Lemmas.Table.double_preserves_of_inv t hi
 
 /-- The number of stored entries always stays below the number of buckets (at least one bucket
     is empty, so every probe terminates) and the bucket count is a power of two ≥ 8. -/
 theorem reachable_shape (ops : List Op) (h : ∀ op ∈ ops, opKey op ≠ 0) (ans : List Ans) (t : Table)
     (hr : run init ops = some (ans, t)) :
     t.entries < t.buckets ∧ (∃ n, 3 ≤ n ∧ t.buckets = 2 ^ n) ∧ t.mask + 1 = t.buckets := by
-  sorry
+  obtain ⟨t0, ht0, hi, _⟩ := PV.Lemmas.Table.run_inv ops init [] PV.Lemmas.Table.init_inv
+    PV.Lemmas.Table.init_abs h
+  rw [hr] at ht0
+  injection ht0 with ht0
+  injection ht0 with _ ht0
+  subst ht0
+  exact PV.Lemmas.Table.shape_of_inv t hi
 
 -- non-vacuity: a history that forces two doublings with wrap-around clusters (keys ≡ 7 mod 8)
 example : (run init ((List.range 20).map (fun i => Op.insert (8 * i + 7) i))).map (fun r => r.2.buckets) = some 32 := by
